@@ -298,6 +298,20 @@ impl ReadCursor {
                 ) {
                     Ok(_) => {
                         fence(Ordering::SeqCst);
+                        // Validate the snapshot now that writers can see the new stream: a
+                        // sibling consumer may have moved the parent (and the writers wrapped
+                        // the ring) between the snapshot and the publication. Nobody else
+                        // uses the new stream yet, so move it up to the parent's position
+                        // until the two agree.
+                        let mut published = raw;
+                        loop {
+                            let now = (*reader.pos).pos_data.load_raw(Ordering::SeqCst);
+                            if now == published {
+                                break;
+                            }
+                            (*new_reader.pos).pos_data.store_raw(now, Ordering::SeqCst);
+                            published = now;
+                        }
                         manager.free(current_ptr, 1);
                         return new_reader;
                     }
